@@ -2,9 +2,10 @@
 from __future__ import annotations
 
 import ast
+import re
 
 from ..cfg import CFG
-from ..core import (AnalysisError, DefRef, LambdaRef, NotConst, Ref, call_name, calls_in, dotted, func_params, norm,
+from ..core import (AnalysisError, DefRef, LambdaRef, NotConst, Ref, call_name, calls_in, dotted, enclosing_conditions, func_params, norm,
                     qualname_of, walk_no_nested)
 
 PROPERTY = "C07"
@@ -638,6 +639,120 @@ def run(ctx):
         okv = isinstance(v, ast.Call) and call_name(v) == "getattr" and len(v.args) == 3 and norm(v.args[0]) == func_params(gf11)[0]
         ctx.check(okv, "R7.11", f"get_field:return {norm(rt.value)[:40]}", f"`return {norm(v)[:70]}` is not the plain three-argument getattr on the record: a stored value can be replaced on the way out", rt,
                   "return getattr(r, field, NONE_OBJECT)", key="R7.11:get_field:value-replaced")
+
+
+    # ------------------------------------------------------------------ R7.12 needle and haystack are case-folded in step
+    ctx.rule("R7.12", "field_equals / field_contains: under nocase the field value is lowered, so every needle it is compared with or searched for derives from the "
+                      "collection that is lowered under the same flag - never from the caller's raw `strings` on a side path (a pre-built pattern list, a cached copy)")
+    n12 = 0
+    from .. import logic as _lg12
+    from ..cfg import stored_paths as _stored12
+    for hq in ("flow.record.selector.field_equals", "flow.record.selector.field_contains"):
+        hf = ctx.anchor_func(hq)
+        params12 = func_params(hf)
+        if len(params12) < 4:
+            raise AnalysisError(f"R7.12: {hq} does not have (r, fields, strings, nocase, ..)")
+        raw, flag = params12[2], params12[3]
+        cfg12 = CFG(hf)
+        val12 = lambda a_, flag=flag: True if a_ == flag else None  # noqa: E731
+        live12 = _lg12.reachable_assuming(cfg12, cfg12.entry, val12)
+        rd12: dict = {}
+
+        def rdefs(name, cfg12=cfg12, rd12=rd12):
+            if name not in rd12:
+                rd12[name] = cfg12.reaching_defs(name)
+            return rd12[name]
+
+        def lowered(e):
+            return any(isinstance(c, ast.Call) and (call_name(c) in ("lower", "str.lower") or (isinstance(c.func, ast.Attribute) and c.func.attr in ("lower", "casefold"))) for c in ast.walk(e))
+
+        def branches(e, flag=flag):
+            """Sub-expressions of e that are evaluated when the flag is on (conditional expressions on the flag take one arm)."""
+            if isinstance(e, ast.IfExp):
+                v = _lg12.evaluate3(_lg12.formula(e.test), {flag: True})
+                if v is True:
+                    return branches(e.body)
+                if v is False:
+                    return branches(e.orelse)
+            return [e]
+
+        def sources(node):
+            a_ = node.ast
+            if isinstance(a_, (ast.For, ast.AsyncFor)):
+                return [a_.iter]
+            if isinstance(a_, ast.Assign):
+                return [a_.value]
+            if isinstance(a_, ast.AugAssign):
+                return [a_.value, a_.target]
+            if isinstance(a_, ast.AnnAssign) and a_.value is not None:
+                return [a_.value]
+            return [x.value for x in ast.walk(a_) if isinstance(x, ast.NamedExpr)] if a_ is not None else []
+
+        builders = [(cfg12.node_of(c), c) for c in calls_in(hf) if isinstance(c.func, ast.Attribute) and c.func.attr in ("append", "extend", "add", "insert", "update") and isinstance(c.func.value, ast.Name)]
+
+        def raw_at(expr, nid, seen, cfg12=cfg12, live12=live12, val12=val12, raw=raw, builders=builders):
+            for e in branches(expr):
+                if lowered(e):
+                    continue
+                inner = {y.id for c in ast.walk(e) if isinstance(c, ast.comprehension) for y in ast.walk(c.target) if isinstance(y, ast.Name)}
+                for x in ast.walk(e):
+                    if not isinstance(x, ast.Name) or not isinstance(x.ctx, ast.Load) or x.id in inner or (x.id, nid) in seen:
+                        continue
+                    seen.add((x.id, nid))
+                    for d in rdefs(x.id).get(nid, ()):
+                        if d not in live12:
+                            continue
+                        reach = _lg12.reachable_assuming(cfg12, d, val12, avoid=lambda n_, d=d, name=x.id: n_.id not in (d, nid) and name in _stored12(n_))
+                        if nid not in reach:
+                            continue
+                        if d == cfg12.entry:
+                            if x.id == raw:
+                                return x
+                            continue
+                        for src in sources(cfg12.nodes[d]):
+                            r0 = raw_at(src, d, seen)
+                            if r0 is not None:
+                                return r0
+                    for bn, bc in builders:
+                        if bc.func.value.id == x.id and bn is not None and bn.id in live12:
+                            for arg in bc.args:
+                                r0 = raw_at(arg, bn.id, seen)
+                                if r0 is not None:
+                                    return r0
+            return None
+
+        hays = set()
+        for n in ast.walk(hf):
+            if isinstance(n, ast.Assign) and any(isinstance(c, ast.Call) and call_name(c) == "get_field" for c in ast.walk(n.value)):
+                hays |= {x.id for t in n.targets for x in ast.walk(t) if isinstance(x, ast.Name)}
+        if not hays:
+            raise AnalysisError(f"R7.12: {hq}: the variable holding get_field(...) not found")
+        grew = True
+        while grew:
+            grew = False
+            for n in ast.walk(hf):
+                if isinstance(n, ast.Assign) and any(isinstance(x, ast.Name) and x.id in hays for x in ast.walk(n.value)):
+                    for t in n.targets:
+                        if isinstance(t, ast.Name) and t.id not in hays:
+                            hays.add(t.id)
+                            grew = True
+        for n in ast.walk(hf):
+            needles = []
+            if isinstance(n, ast.Compare) and any(isinstance(x, ast.Name) and x.id in hays for x in ast.walk(n)):
+                needles = [o for o in [n.left] + n.comparators if not any(isinstance(x, ast.Name) and x.id in hays for x in ast.walk(o))]
+            elif isinstance(n, ast.Call) and isinstance(n.func, ast.Attribute) and n.func.attr in ("search", "match", "fullmatch", "findall", "finditer") \
+                    and any(isinstance(x, ast.Name) and x.id in hays for a in n.args for x in ast.walk(a)):
+                needles = [a for a in n.args if not any(isinstance(x, ast.Name) and x.id in hays for x in ast.walk(a))] + ([n.func.value] if norm(n.func.value) != "re" else [])
+            site = cfg12.node_of(n) if needles else None
+            for nd in needles:
+                if isinstance(nd, ast.Constant) or norm(nd) in ("NONE_OBJECT", "string_types") or site is None or site.id not in live12:
+                    continue
+                n12 += 1
+                bad12 = raw_at(nd, site.id, set())
+                ctx.check(bad12 is None, "R7.12", f"{hf.name}:needle:{norm(nd)[:40]}", f"`{norm(n)[:70]}` tests the field value (lowered when {flag} is on) against `{norm(nd)[:40]}`, which on a path "
+                          f"with {flag} on derives from the caller's `{raw}` without having been lowered: a needle with an upper-case letter never matches", n,
+                          f"needles lowered whenever {flag} is on", key=f"R7.12:{hf.name}:needle-not-folded")
+    ctx.floor("R7.12", "needle/haystack tests in field_equals and field_contains", n12, 3)
 
 
 
